@@ -2,14 +2,16 @@
 // real time: only schedule-independent facts are asserted, with generous limits).
 //   stress M <seconds> <seed>   migration (self + other), cross-vCPU interrupt, cross-vCPU join; stealing OFF
 //   stress S <seconds> <seed>   work stealing ON (1 passive victim, active thieves); stealable threads sleep, never yield
-//   stress Y <seconds> <seed>   confirmation of finding F20 (needs the guarded hook of
-//                               repo_patches/C05-hook-yield-window.diff; prints F20-SKIPPED without it)
+//   stress J <seconds> <seed>   confirmation of finding F24 (ThreadPoolBase::join ended by an interrupt of the joiner)
+//   stress Y <seconds> <seed>   confirmation of finding F23 (needs the guarded hook of
+//                               repo_patches/C05-hook-yield-window.diff; prints F23-SKIPPED without it)
 // Asserted: every entry function runs exactly once; a thread is never inside its entry on two vCPUs
 // at once (marker); thread_join returns the entry's value; non-joinable stacks are handed back
 // exactly once and joinable ones exactly once and not before the join (recording allocator);
 // every vCPU's thread count is back to 2 at quiescence.  Prints STRESS-OK ... or STRESS-FAIL ....
 #include <photon/thread/thread.h>
 #include <photon/thread/stack-allocator.h>
+#include <photon/thread/thread-pool.h>
 #include <photon/common/alog.h>
 #include <atomic>
 #include <thread>
@@ -194,7 +196,7 @@ static int run_ms(char mode, int seconds, uint32_t seed) {
     return 0;
 }
 
-// ---- F20 confirmation ------------------------------------------------------------------------
+// ---- F23 confirmation ------------------------------------------------------------------------
 // hook (guard PHOTON_VERIF, repo_patches/C05-hook-yield-window.diff): called by thread_yield() after the
 // run-queue lock has been released (AtomicRunQ destroyed) and before switch_context saves the context of
 // the yielding thread.  The callback "pre-empts" the victim's OS thread there for 300 ms.
@@ -203,7 +205,7 @@ static std::atomic<int> g_arm{0}, g_window{0};
 static pthread_t g_victim;
 static void f20_report(const char* how) {
     char m[320];
-    snprintf(m, sizeof m, "F20-CONFIRMED %s: the yielding thread was taken by vCPU %d between thread_yield's run-queue "
+    snprintf(m, sizeof m, "F23-CONFIRMED %s: the yielding thread was taken by vCPU %d between thread_yield's run-queue "
              "unlock and its context save, while vCPU 0 was still executing on its stack\n", how, vcpu_index(get_vcpu(g_yrec.th)));
     (void)!write(1, m, strlen(m));
     _exit(0);
@@ -221,7 +223,7 @@ static void yield_window_cb() {
 // whichever of the two OS threads trips first ends up here
 static void crash_handler(int sig) {
     if (g_window.load() > 0 && g_yrec.th && get_vcpu(g_yrec.th) != g_vcpu[0]) f20_report(sig == SIGSEGV ? "SIGSEGV after the steal" : "fatal signal after the steal");
-    const char* m = "F20-UNRELATED-CRASH\n"; (void)!write(1, m, strlen(m));
+    const char* m = "F23-UNRELATED-CRASH\n"; (void)!write(1, m, strlen(m));
     _exit(3);
 }
 static void* yworker(void*) {
@@ -230,7 +232,7 @@ static void* yworker(void*) {
     if (n >= 2) {
         // second incarnation of the same entry, started by the thief from the stale (initial) context
         char m[256];
-        snprintf(m, sizeof m, "F20-CONFIRMED entry function of one thread started %d times (second start on vCPU %d): "
+        snprintf(m, sizeof m, "F23-CONFIRMED entry function of one thread started %d times (second start on vCPU %d): "
                  "stolen between thread_yield's run-queue unlock and its context save\n", n, vcpu_index(get_vcpu()));
         (void)!write(1, m, strlen(m));
         _exit(0);
@@ -244,7 +246,7 @@ static void* yworker(void*) {
 static int run_y(int seconds) {
     typedef void (*cb_t)();
     cb_t* slot = (cb_t*)dlsym(RTLD_DEFAULT, "photon_verif_c05_yield_window");
-    if (!slot) { printf("F20-SKIPPED the library has no photon_verif_c05_yield_window hook\n"); return 0; }
+    if (!slot) { printf("F23-SKIPPED the library has no photon_verif_c05_yield_window hook\n"); return 0; }
     g_victim = pthread_self();
     {   // fatal-signal handler on an alternate stack, for every thread of the process
         static char alt[1 << 16];
@@ -261,16 +263,46 @@ static int run_y(int seconds) {
     thread_pause_work_stealing(true, g_yrec.th);     // it must START on this vCPU
     auto lim = Clock::now() + std::chrono::seconds(seconds > 0 ? seconds : 3);
     while (!g_yrec.done.load() && Clock::now() < lim) thread_yield();
-    printf("F20-NOT-REPRODUCED window_hits=%d runs=%d\n", g_window.load(), g_yrec.runs.load());
+    printf("F23-NOT-REPRODUCED window_hits=%d runs=%d\n", g_window.load(), g_yrec.runs.load());
+    fflush(stdout);
+    _exit(0);
+}
+
+// ---- F24 confirmation: is ThreadPoolBase::join interrupt-safe? ----------------------------------
+// one vCPU; margins of 10 ms / 200 ms / 1 s make the outcome independent of timing
+static std::atomic<int> j_work_done{0}, j_join_returned{0}, j_joined_early{0};
+static void* j_work(void*) { thread_usleep(200 * 1000); j_work_done.store(1); return nullptr; }
+struct JArg { ThreadPoolBase* pool; TPControl* ctrl; };
+static void* j_joiner(void* a_) {
+    auto a = (JArg*)a_;
+    a->pool->join(a->ctrl);
+    if (!j_work_done.load()) j_joined_early.store(1);
+    j_join_returned.store(1);
+    return nullptr;
+}
+static int run_j() {
+    vcpu_init();
+    auto pool = new_thread_pool(4, 256 * 1024);
+    auto ctrl = pool->thread_create_ex(&j_work, nullptr, true);
+    JArg a{pool, ctrl};
+    auto j = thread_create(&j_joiner, &a, 256 * 1024);
+    thread_usleep(10 * 1000);                 // the joiner is blocked inside pool->join()
+    thread_interrupt(j, EINTR);               // an unrelated interrupt of the JOINING thread
+    for (int i = 0; i < 1000 && !j_join_returned.load(); i++) thread_usleep(1000);
+    if (j_joined_early.load())
+        printf("F24-CONFIRMED ThreadPoolBase::join returned before the pooled entry function returned (joiner interrupted)\n");
+    else
+        printf("F24-NOT-REPRODUCED join_returned=%d\n", j_join_returned.load());
     fflush(stdout);
     _exit(0);
 }
 
 int main(int argc, char** argv) {
-    if (argc < 4) { fprintf(stderr, "usage: stress M|S|Y <seconds> <seed>\n"); return 2; }
+    if (argc < 4) { fprintf(stderr, "usage: stress M|S|Y|J <seconds> <seed>\n"); return 2; }
     log_output_level = ALOG_FATAL + 1;
     set_photon_thread_stack_allocator({&rec_alloc, nullptr}, {&rec_dealloc, nullptr});
     char mode = argv[1][0]; int secs = atoi(argv[2]); uint32_t seed = (uint32_t)atoll(argv[3]);
     if (mode == 'Y') return run_y(secs);
+    if (mode == 'J') return run_j();
     return run_ms(mode, secs, seed);
 }
